@@ -159,6 +159,12 @@ func (g *nsGen) next() SOp {
 			}
 		} else if g.withSetattr {
 			o.Kind, o.Dir = "setattr", anyObj[rng.Intn(len(anyObj))]
+			if len(links) > 0 && rng.Intn(4) == 0 {
+				o.Dir = links[rng.Intn(len(links))]
+				if rng.Intn(3) == 0 {
+					o.Sa.Size = p64(uint64(rng.Intn(4)))
+				}
+			}
 			o.Sa.Mode = p32(uint32([]int{0o644, 0o600, 0o755, 0o700, 0o40755, 0o100644, 0o7777, 0}[rng.Intn(8)]))
 			if rng.Intn(3) == 0 {
 				o.Sa.UID = p32(uint32(rng.Intn(3)))
